@@ -36,7 +36,7 @@ bool Difference_Floating_Point_Expression<FP_Interval_Type, FP_Format>
     return false;
   }
   FP_Linear_Form rel_error;
-  relative_error(result, rel_error);
+  this->relative_error(result, rel_error);
   result += rel_error;
   FP_Linear_Form linearized_second_operand;
   if (!second_operand->linearize(int_store, lf_store,
@@ -44,7 +44,7 @@ bool Difference_Floating_Point_Expression<FP_Interval_Type, FP_Format>
     return false;
   }
   result -= linearized_second_operand;
-  relative_error(linearized_second_operand, rel_error);
+  this->relative_error(linearized_second_operand, rel_error);
   result += rel_error;
   result += this->absolute_error;
   return !this->overflows(result);
